@@ -160,6 +160,8 @@ def closure_contracts(txt, specs, key):
     out = txt
     for sp in specs:
         at = sp["at"]
+        if sp.get("optional") and out.count(at) == 0:
+            continue   # the closure is gone from the code: nothing to annotate, the function is checked as it is
         if out.count(at) != 1:
             raise ExtractError(f"lost anchor for closure contract: `{at}` in {key}")
         k = out.index(at)
@@ -545,7 +547,7 @@ def extract_item(e, vac=False):
         keep = set(e["abstract_fields"])
         def _abs(m):
             return m.group(0) if m.group(2) in keep else f"{m.group(1)}{m.group(2)}: u64,"
-        item = re.sub(r"(?m)^(\s*)(\w+):\s*[^\n]+?,\s*$", _abs, item)
+        item = re.sub(r"(?m)^(\s*(?:pub\s+)?)(\w+):\s*[^\n]+?,\s*$", _abs, item)
     if e.get("closure_contracts"):
         item = closure_contracts(item, e["closure_contracts"], e["key"])
     for sub in e.get("sig_subst", []):
